@@ -244,6 +244,11 @@ def replay_file(prop, rec):
             return True, 'Miri (Tree Borrows) on a driver that writes through every mutable view of the API: Undefined Behavior: %s%s' % (m.group(1)[:200], (' at ' + loc.group(1)) if loc else '')
         if 'every mutable view accepted the writes' in out:
             return False, 'not reproduced: Miri (Tree Borrows) accepts a write through every mutable view'
+        mp = re.search(r"panicked at (src/main\.rs:\d+):\d+:\s*\n?([^\n]*)", out)
+        if mp:
+            # the driver's own assertions (Ok / Err outcome of the fallible reinterpretations, values seen through the views) hold on the
+            # unchanged crate: a failing one is a native difference in behaviour at that call
+            return True, 'the driver that exercises every view of the API fails an assertion of its own under Miri at %s: %s' % (mp.group(1), mp.group(2)[:200])
         return False, 'Miri run failed: ' + out[-300:]
     if kc == 'use-after-free':
         # the drop counts come out right natively (the freed block usually still holds the bits): the native sweep runs under Miri, which
